@@ -189,6 +189,15 @@ def _nested_dict_get(d, path):
     return current
 
 
+def _nested_dict_merge(dst, src):
+    """Merge nested dictionary `src` into `dst`; later writes replace earlier ones."""
+    for key, value in src.items():
+        if isinstance(value, dict) and isinstance(dst.get(key), dict):
+            _nested_dict_merge(dst[key], value)
+        else:
+            dst[key] = value
+
+
 @dataclass
 class State:
     """JAX interpreter that collects tagged state values.
@@ -310,10 +319,13 @@ class State:
                     reverse=reverse,
                 )
 
-                # Merge vectorized scan states into collected state
+                # Merge vectorized scan states into collected state, under the
+                # namespaces enclosing the scan.
                 # scan_states is already vectorized by scan - just merge it
-                for name, vectorized_values in scan_states.items():
-                    self.collected_state[name] = vectorized_values
+                _nested_dict_merge(
+                    _nested_dict_get(self.collected_state, tuple(self.namespace_stack)),
+                    scan_states,
+                )
 
                 outvals = jtu.tree_leaves(
                     (flat_carry_out, scanned_out),
